@@ -444,7 +444,7 @@ func init() {
 		Rule: "each case is a generated template set whose value sites render data of 15-17 kinds (string, named string, []byte, Stringer, error, *string, **string, []string, map, nil pointer, ints, bool, float, interface; every 10th case strings/[]byte of length 4096k±3 with specials on the print-buffer boundaries) built over an alphabet with < > & ' \" NUL and multi-byte runes; " +
 			"sites are plain actions or end in a SafeWriter (raw, unsafe, safeHtml, safeJs, a user tagging writer) in piped, prefix and call form, and sit at top level, in if/range, block definitions, yielded blocks, yield content, default content, included/extended/imported templates, try and catch bodies, exec'd templates (must not appear); " +
 			"oracle per escaper configuration: the real output equals literal text verbatim + escaper(value) for plain sites + writer(value) for SafeWriter sites (tags of one value merged), so unescaped, doubly escaped, truncated or reordered values and escaped text all show; 6 directed cases: a SafeWriter that is not the last command must be an error; 2 more: the value of dump() is escaped once, an execution nested (through a Go function) inside exec() escapes as always; " +
-			"non-trivial = a value site below at least one construct; distinct by (construct path of the site, writers/forms used)",
+			"non-trivial = a value site below at least one construct; distinct by (construct path of the site, writers/forms used) Since waves 8/9 the value list also holds two string literals written in the template (quoted and raw), a *bytes.Buffer and a *strings.Builder.",
 		Assumptions: []string{"template.HTMLEscapeString/JSEscapeString equal the SafeWriters template.HTMLEscape/JSEscape on whole values", "Renderer values are out of scope (they render themselves)", "values sent through safeJs are shorter than the 4096-byte print buffer (rune-aware writer, DESIGN 2.4)"},
 		NCases:      c01n,
 		RunCase:     c01run,
